@@ -250,6 +250,34 @@ func buildAPICalls(seed int64) []apiCall {
 			return digestImage(im), nil
 		}})
 	}
+	// decodes that fail inside the bitstream (container intact, second half of the payload overwritten): error paths
+	// release pooled objects too
+	for _, nm := range []string{"lossy-96x128-m4", "lossy-alpha-40x24", "lossless-260x200"} {
+		tag := "VP8 "
+		if strings.HasPrefix(nm, "lossless") {
+			tag = "VP8L"
+		}
+		bad := corruptPayload(files[nm], tag)
+		if tag == "VP8 " {
+			// a lossy payload with garbage in it usually still "decodes"; cut the payload instead (the frame header
+			// then announces more partition data than the chunk holds), keeping the container consistent
+			pl := findChunk(files[nm], "VP8 ")
+			for _, keep := range []int{len(pl) / 2, len(pl) / 4, 30, 12} {
+				cand := wrapVP8(pl[:keep])
+				if _, err := webp.Decode(bytes.NewReader(cand)); err != nil {
+					bad = cand
+					break
+				}
+			}
+		}
+		calls = append(calls, apiCall{"Decode(corrupted " + nm + ")", func() (string, error) {
+			im, err := webp.Decode(bytes.NewReader(bad))
+			if err != nil {
+				return "error: " + err.Error(), nil
+			}
+			return digestImage(im), nil
+		}})
+	}
 	f0 := files["lossy-alpha-40x24"]
 	calls = append(calls, apiCall{"DecodeConfig+GetFeatures", func() (string, error) {
 		c, err := webp.DecodeConfig(bytes.NewReader(f0))
@@ -389,6 +417,63 @@ func runWriterOverlap(seed int64, rounds int, report func(key, msg string), eval
 	eval(fmt.Sprintf("writer-overlap x%d", rounds))
 }
 
+// runAfterFailures: calls that fail inside a bitstream are made first (their error paths hand pooled objects back),
+// then many goroutines decode and encode at once; every result must equal the solo result.
+func runAfterFailures(seed int64, rounds int, report func(key, msg string), eval func(sig string)) {
+	calls := buildAPICalls(seed)
+	var failing, work []int
+	for i, c := range calls {
+		switch {
+		case strings.HasPrefix(c.name, "Decode(corrupted"):
+			failing = append(failing, i)
+		case strings.HasPrefix(c.name, "Decode:"), strings.HasPrefix(c.name, "Encode:lossy-33x17"), strings.HasPrefix(c.name, "Encode:lossless-33x17"):
+			work = append(work, i)
+		}
+	}
+	solo := map[int]string{}
+	for _, i := range work {
+		d, err := calls[i].run()
+		if err != nil {
+			report("solo-call-fails|"+calls[i].name, err.Error())
+			return
+		}
+		solo[i] = d
+	}
+	rng := rand.New(rand.NewSource(seed))
+	for r := 0; r < rounds; r++ {
+		for k := 0; k < 3; k++ {
+			calls[failing[rng.Intn(len(failing))]].run()
+		}
+		var wg sync.WaitGroup
+		var mu sync.Mutex
+		for g := 0; g < 8; g++ {
+			order := rng.Perm(len(work))
+			wg.Add(1)
+			go func(order []int) {
+				defer wg.Done()
+				defer func() {
+					if p := recover(); p != nil {
+						mu.Lock()
+						report("panic|after-failed-calls", fmt.Sprintf("a call panicked while running concurrently after failed decodes: %v", p))
+						mu.Unlock()
+					}
+				}()
+				for _, k := range order[:4] {
+					ci := work[k]
+					d, err := calls[ci].run()
+					if err != nil || d != solo[ci] {
+						mu.Lock()
+						report("concurrent-result-differs|"+calls[ci].name, fmt.Sprintf("%s returned a different result (err=%v) when run concurrently with other calls right after decodes that failed", calls[ci].name, err))
+						mu.Unlock()
+					}
+				}
+			}(order)
+		}
+		wg.Wait()
+	}
+	eval(fmt.Sprintf("after-failures x%d", rounds))
+}
+
 // runConcurrentPrograms runs k goroutines x sequences of calls and compares every result with the solo result.
 func runConcurrentPrograms(seed int64, rounds, k, seqLen int, report func(key, msg string), eval func(sig string)) {
 	calls := buildAPICalls(seed)
@@ -458,6 +543,7 @@ func c10RaceChild(args []string) {
 	}
 	runConcurrentPrograms(seed, rounds, 4, 3, func(key, msg string) { fmt.Printf("CHILD-VIOLATION %s: %s\n", key, msg); bad++ }, func(string) {})
 	runWriterOverlap(seed, rounds, func(key, msg string) { fmt.Printf("CHILD-VIOLATION %s: %s\n", key, msg); bad++ }, func(string) {})
+	runAfterFailures(seed, 2*rounds, func(key, msg string) { fmt.Printf("CHILD-VIOLATION %s: %s\n", key, msg); bad++ }, func(string) {})
 	runtime.GOMAXPROCS(8)
 	verifhook.Start(seed+1, map[string]int{"pool_put": 70, "*": 3})
 	runConcurrentPrograms(seed+1, rounds, 6, 3, func(key, msg string) { fmt.Printf("CHILD-VIOLATION %s: %s\n", key, msg); bad++ }, func(string) {})
@@ -558,6 +644,7 @@ func checkC10(args []string) {
 		func(key, msg string) { run.Violate(key, msg, key) }, func(sig string) { run.Eval("prog:" + sig) })
 	verifhook.Stop()
 	runWriterOverlap(run.Seed, run.Pick(4, 30), func(key, msg string) { run.Violate(key, msg, key) }, func(sig string) { run.Eval("prog:" + sig) })
+	runAfterFailures(run.Seed, run.Pick(12, 80), func(key, msg string) { run.Violate(key, msg, key) }, func(sig string) { run.Eval("prog:" + sig) })
 	// the same alphabet with the caller delayed right after every pool Put (hook PoolPut): an object that is still
 	// used after its release is now in other goroutines' hands while that use goes on
 	verifhook.Start(run.Seed+1, map[string]int{"pool_put": 70, "*": 3})
